@@ -27,7 +27,19 @@ def run(case):
     spec = case["nfa"]
     N = B.mk_nfa(spec)
     before = B.canon(spec)
-    D = lib(nfa_to_dfa, N)
+    if case.get("logging"):
+        import contextlib
+        import io
+        from gambatools.global_settings import GambaTools
+        old = GambaTools.enable_logging
+        GambaTools.enable_logging = True
+        try:
+            with contextlib.redirect_stdout(io.StringIO()):
+                D = lib(nfa_to_dfa, N)
+        finally:
+            GambaTools.enable_logging = old
+    else:
+        D = lib(nfa_to_dfa, N)
     if not isinstance(D, DFA):
         raise Fail("type", "nfa_to_dfa returned %r" % type(D))
     snap = B.snap_dfa(D)
@@ -67,7 +79,7 @@ def run(case):
 
 @st.composite
 def cases(draw, tier):
-    return {"nfa": draw(G.mixed_nfa_specs(max_states=5 if tier == "quick" else 6))}
+    return {"nfa": draw(G.mixed_nfa_specs(max_states=5 if tier == "quick" else 6)), "logging": draw(st.integers(0, 5)) == 0}
 
 
 def ex(tier):
